@@ -181,6 +181,14 @@ func genHostileRFC6902(r *core.RNG, doc map[string]any) []any {
 			}
 		default:
 			op["path"] = pick()
+			if rf := r.Stream(fmt.Sprintf("stray-from/%d", len(ops))); rf.Chance(1, 6) {
+				// a member the operation kind does not use, with values of every JSON kind; harmless operations first, so that a
+				// reader that stops at the stray member leaves the rest of the list unread
+				op["from"] = core.Pick(rf, []any{nil, "", "/note", jsonInt(7), []any{}, map[string]any{}, "/publicKey"})
+				if rf.Chance(1, 2) {
+					op["path"] = safe()
+				}
+			}
 		}
 		if kind == "add" || kind == "replace" || kind == "test" {
 			if r.Chance(1, 2) {
@@ -268,6 +276,28 @@ func GenCompose(prop string, seed uint64, pool *Pool) *Plan {
 	s.Observers = 1
 	for n := r.Range(8, 20); n > 0; n-- {
 		setup := genSetup(r, pool, s)
+		var bigKeys, bigSvcs []string
+		if rb := r.Stream(fmt.Sprintf("big/%d", n)); prop == "C10" && rb.Chance(1, 6) {
+			// a document with many entries (13-24 keys and / or services): list algorithms that switch strategy with the length
+			cnt, which := rb.Range(13, 24), rb.Intn(3)
+			var ks, ss []any
+			for i := 0; i < cnt; i++ {
+				ks = append(ks, genDocKey(rb, pool, fmt.Sprintf("big-%02d", i)))
+				ss = append(ss, genService(rb, fmt.Sprintf("svc-%02d", i)))
+			}
+			if which != 1 {
+				setup = append(setup, map[string]any{"action": "add-public-keys", "publicKeys": ks})
+				for i := 0; i < cnt; i++ {
+					bigKeys = append(bigKeys, fmt.Sprintf("big-%02d", i))
+				}
+			}
+			if which != 0 {
+				setup = append(setup, map[string]any{"action": "add-services", "services": ss})
+				for i := 0; i < cnt; i++ {
+					bigSvcs = append(bigSvcs, fmt.Sprintf("svc-%02d", i))
+				}
+			}
+		}
 		doc, err := ref.Compose(map[string]any{}, resolveForGen(pool, setup))
 		if err != nil {
 			continue
@@ -308,6 +338,36 @@ func GenCompose(prop string, seed uint64, pool *Pool) *Plan {
 			st.Args["ctor"] = r.Chance(1, 3)
 			var other []string
 			st.Patches = genPatches(r, pool, s, 4, &other)
+			if len(bigKeys)+len(bigSvcs) > 0 {
+				// removals and re-additions that hit existing entries of the long lists (first, middle, last) and miss some
+				rb := r.Stream("big-patches")
+				var pre []any
+				if len(bigKeys) > 0 {
+					sub := core.Subset(rb, bigKeys, 1, 4)
+					if len(sub) == 0 {
+						sub = []string{core.Pick(rb, bigKeys)}
+					}
+					ids := strList(append(sub, "unknown-key"))
+					pre = append(pre, map[string]any{"action": "remove-public-keys", "ids": ids})
+					if rb.Chance(1, 2) {
+						pre = append(pre, map[string]any{"action": "add-public-keys", "publicKeys": []any{genDocKey(rb, pool, core.Pick(rb, bigKeys)), genDocKey(rb, pool, "big-new")}})
+					}
+				}
+				if len(bigSvcs) > 0 {
+					sub := core.Subset(rb, bigSvcs, 1, 4)
+					if len(sub) == 0 {
+						sub = []string{core.Pick(rb, bigSvcs)}
+					}
+					ids := strList(append(sub, "unknown-svc"))
+					pre = append(pre, map[string]any{"action": "remove-services", "ids": ids})
+					if rb.Chance(1, 2) {
+						pre = append(pre, map[string]any{"action": "add-services", "services": []any{genService(rb, core.Pick(rb, bigSvcs)), genService(rb, "svc-new")}})
+					}
+				}
+				core.Shuffle(rb, pre)
+				k := rb.Intn(len(st.Patches) + 1)
+				st.Patches = append(st.Patches[:k:k], append(pre, st.Patches[k:]...)...)
+			}
 			if r.Chance(1, 2) {
 				k := r.Intn(len(st.Patches) + 1)
 				docK, kerr := ref.Compose(doc, resolveForGen(pool, st.Patches[:k]))
